@@ -31,9 +31,11 @@ def fromstr_delegation(ctx, R, rule):
         check_rows(R, rule, p, outs, rows)
 
 
-def owned_copies(ctx, R, rule='C16.O'):
+def owned_copies(ctx, R, rule='C16.O', only=None):
     n = 0
     for self_ty, adt_path in ((H1, 'v1::model::Header'), (H2, 'v2::model::Header'), (TLV, 'v2::model::TypeLengthValue')):
+        if only and adt_path not in only:
+            continue
         p = ctx.method(self_ty, 'to_owned')
         a = ctx.fx.adts.get(adt_path)
         if p is None or not R.require(a is not None, rule, adt_path, 'struct missing'):
@@ -59,8 +61,8 @@ def owned_copies(ctx, R, rule='C16.O'):
             n += 1
         # C16.L signature: 'static
         out = ctx.fx.fns[p]['output']
-        R.inst('C16.L', 'to_owned/%s/returns-static' % adt_path, "'static" in out, expected="...<'static>", found=out, entry=p, nontrivial=False)
-    R.floor('owned-copy field slots', n, 9)
+        R.inst(rule.replace('.O', '.L'), 'to_owned/%s/returns-static' % adt_path, "'static" in out, expected="...<'static>", found=out, entry=p, nontrivial=False)
+    R.floor('owned-copy field slots', n, 9 if not only else 5)
     return n
 
 
@@ -82,8 +84,8 @@ def run(ctx, R):
                      'errors unchanged. C16.O: each of the three to_owned functions copies every field (Cow fields into Cow::Owned with the same contents); '
                      "derived PartialEq is field-wise and Cow equality compares contents (axiom). C16.L: the return types are <'static>, the crate has no unsafe "
                      'and no interior mutability, so an owned copy cannot alias or change with the input buffer (thorough tier adds compile-fail witnesses).')
-    n = v1model.check_window(ctx, R, 'C16.S', 'str') + v1model.check_window(ctx, R, 'C16.S', 'bytes')
-    R.floor('sibling window instances', n, 8)
+    n = v1model.sibling_compare(ctx, R, 'C16.S')
+    R.floor('co-satisfiable sibling outcome pairs', n, 6)
     fromstr_delegation(ctx, R, 'C16.F')
     owned_copies(ctx, R)
     independence(ctx, R)
